@@ -1270,7 +1270,11 @@ def run_impl(case):
                 if h is not None:
                     kw[k] = "urn:h:%s" % h if h != "" else ""
             text = ds.serialize(format="patch", **kw)
-            obs.append(_doc_line(read_patch_doc(text)))
+            try:
+                obs.append(_doc_line(read_patch_doc(text)))
+            except ValueError as e:
+                obs.append("ERR-read:" + _exc(e))
+                viol.append(f"unreadable-patchtext: a line of the patch document is not a header, TX, TC, A or D row: {e!r}"[:300])
         except Exception as e:  # noqa: BLE001
             obs.append("ERR-pdoc:" + _exc(e))
             viol.append(f"error-patchtext: serialize raised {e!r}"[:300])
